@@ -508,4 +508,10 @@ pub async fn plan_compaction(""", expect="mutator:dataset::optimize::drop_old_fi
          expect="new-indices-checked:CreateIndex"),
     dict(name="c13_remap_not_chained", prop="C13", file="rust/lance-index/src/frag_reuse.rs", what="remap_row_id looks every map up with the original address",
          old="                    .get(&mapped_value.unwrap())", new="                    .get(&row_id)", expect="ORIGIN-remap-chained"),
+    dict(name="c17_delta_inserted_includes_begin", prop="C17", file="rust/lance/src/dataset/delta.rs", what="inserted-rows delta includes the begin version",
+         old='"_row_created_at_version > {} AND _row_created_at_version <= {}"', new='"_row_created_at_version >= {} AND _row_created_at_version <= {}"',
+         expect="TABLE-delta-filter|inserted"),
+    dict(name="c17_delta_updated_swapped_ends", prop="C17", file="rust/lance/src/dataset/delta.rs", what="updated-rows delta compares created_at with the end version",
+         old="            self.begin_version, self.begin_version, self.end_version", new="            self.end_version, self.begin_version, self.end_version",
+         expect="TABLE-delta-filter|updated"),
 ]
